@@ -63,6 +63,9 @@ def write_if_changed(path, content):
 
 # ------------------------------------------------------------------ harness
 
+HOOKS_STATUS = {}
+
+
 def build_harness(universe, tag, race=False):
     """compile the harness with the generated types of [universe] against /repo's working tree"""
     src = universe.go_source()
@@ -94,7 +97,14 @@ def build_harness(universe, tag, race=False):
         env['CGO_ENABLED'] = '1'
     r = sh(cmd, cwd=d, env=env, check=False)
     if r.returncode != 0:
-        raise RuntimeError('harness build failed:\n' + r.stdout[-6000:])
+        # the tagged hooks do not compile against this tree: fall back to the public entry points
+        # (component-level operations then answer "nohooks", which the judge reports)
+        log('[build] harness with hooks failed, building without: ' + ' '.join(r.stdout.split())[-400:])
+        cmd2 = [c for c in cmd if c not in ('-tags', 'verif')]
+        r2 = sh(cmd2, cwd=d, env=env, check=False)
+        if r2.returncode != 0:
+            raise RuntimeError('harness build failed:\n' + r.stdout[-3000:] + '\nwithout hooks:\n' + r2.stdout[-3000:])
+        HOOKS_STATUS['missing'] = ' '.join(r.stdout.split())[-600:]
     log('[build] harness %s (%s) in %.1fs' % (key, tag, time.time() - t0))
     prune(os.path.join(CACHE, 'harness'), keep=6)
     return exe
